@@ -85,13 +85,12 @@ def load_witnesses():
 
 
 def judge(ctx, behs, opts, name, expect=None):
-    """Chunked so that one monitor run stays below ~25 000 events; returns the trace of the first chunk."""
+    """Chunked so that one monitor run stays below ~25 000 events; returns the traces of the chunks."""
     per = max(1, 25000 // max(1, (sum(3 * len(b) + 3 for b in behs) // max(1, len(behs)))))
-    first = None
+    out = []
     for i in range(0, len(behs), per):
-        t = judge1(ctx, behs[i:i + per], opts, name if i == 0 else "%s_%d" % (name, i // per), expect if i == 0 else None)
-        first = first or t
-    return first
+        out.append(judge1(ctx, behs[i:i + per], opts, name if i == 0 else "%s_%d" % (name, i // per), expect if i == 0 else None))
+    return out
 
 
 def judge1(ctx, behs, opts, name, expect=None):
@@ -197,10 +196,9 @@ def run(ctx):
         if b:
             ctx.sample(b)
     # ---------------------------------------------------------------- T: real chain + monitor
-    traces = []
-    traces.append(judge(ctx, small, OPTS_SMALL, "small", expect))
-    traces.append(judge(ctx, [b for _, bs, o in wit if not o for b in bs] + scen + simA, OPTS_DEFAULT, "default"))
-    traces.append(judge(ctx, scen + simB, OPTS_MRP1, "mrp1"))
+    small_traces = judge(ctx, small, OPTS_SMALL, "small", expect)
+    default_traces = judge(ctx, [b for _, bs, o in wit if not o for b in bs] + scen + simA, OPTS_DEFAULT, "default")
+    judge(ctx, scen + simB, OPTS_MRP1, "mrp1")
     for i, (f, bs, o) in enumerate(wit):
         if o:
             judge(ctx, bs, o, "wit%d" % i)
@@ -209,10 +207,11 @@ def run(ctx):
                               "RewardsNeverLost", "FailedActivationRefunded", "Settlements") if not fired.get(k))
     if idle:
         raise vlib.Undecided("monitor clauses never fired (vacuous run): %s" % ", ".join(idle))
-    conformance(ctx, traces[0])
+    for t in small_traces:
+        conformance(ctx, t)
     if not quick:
-        selftest(ctx, traces[1])
-        conf_selftest(ctx, traces[0])
+        selftest(ctx, default_traces[0])
+        conf_selftest(ctx, small_traces[0])
     if m.violated and not ctx.violations:
         raise vlib.Undecided("design-level counterexample of the repaired model (%s) did not reproduce on the real code: "
                              "specification drift" % m.violated)
@@ -225,7 +224,8 @@ def conformance(ctx, trace):
     acc = [v for v in conf.printed if isinstance(v, dict) and v.get("kind") == "ACCEPTED"]
     rej = [v for v in conf.printed if isinstance(v, dict) and v.get("kind") == "REJECTED"]
     if acc:
-        ctx.cov["conformance"] = "accepted %d events" % acc[0]["events"]
+        ctx.cov["conformance_events_accepted"] = ctx.cov.get("conformance_events_accepted", 0) + acc[0]["events"]
+        ctx.cov.setdefault("conformance", "accepted")
     else:
         ctx.cov["drift_events"] += 1
         if rej:
